@@ -167,7 +167,9 @@ CHECKS = [
         "CANONICAL chunk documents of the sample groups: header fields exact, length prefix = payload length, payload byte-identical with the "
         "reference sample verbatim and every zero run maximal; the independent decoder recovers the samples), C03_encode_bytes (no trailing "
         "bytes), C03_decode_complete (the model of the library's reader decodes every spec-conformant stream to exactly its samples; loop "
-        "invariant of the zero-run carry against the spec's run expansion). Correspondence in both directions: collector output decoded by the "
+        "invariant of the zero-run carry against the spec's run expansion), C03_oracle_sound / C03_oracle_docs_sound (the executable oracles the "
+        "driver applies to the implementation's bytes - headers, metric vectors, verbatim references, canonical payloads, and every sample read "
+        "back as a document equal to its input without the non-metric leaves - hold of the model's output). Correspondence in both directions: collector output decoded by the "
         "extracted spec decoder; streams drawn from the extracted spec encoder (choice lists) fed to all library readers.",
         "Trusted: as C01; zlib itself. Known finding D1 (timestamp seconds) excluded in the decode direction. `type` given as decimal128 is "
         "skipped by the library (the spec covers int32/int64/double). Non-minimal varints are covered by the theorem but not generated.",
